@@ -1,6 +1,7 @@
 package adapt
 
 import (
+	"os"
 	"testing"
 
 	"pgregory.net/rapid"
@@ -105,6 +106,22 @@ func caseFeatures(c Case, e *Expect) []string {
 	if equalHook {
 		out = append(out, "hook_equal_to_another_partys")
 	}
+	if c.Fixture < numFixtures {
+		pre, ext := false, false
+		for _, s := range c.Chain {
+			if fixtureSpecs[c.Fixture].launched[s.Plugin] {
+				pre = true
+			} else {
+				ext = true
+			}
+		}
+		if pre {
+			out = append(out, "chain_with_a_pre-installed_plugin")
+		}
+		if pre && ext {
+			out = append(out, "chain_mixing_pre-installed_and_external_plugins")
+		}
+	}
 	if bareArgs {
 		out = append(out, "bare_command_line_override_marker")
 	}
@@ -137,3 +154,9 @@ func TestProp_C02(t *testing.T) { testProp(t, "C02") }
 func TestProp_C03(t *testing.T) { testProp(t, "C03") }
 func TestProp_C04(t *testing.T) { testProp(t, "C04") }
 func TestProp_C05(t *testing.T) { testProp(t, "C05") }
+
+func TestMain(m *testing.M) {
+	code := m.Run()
+	cleanupFixtures()
+	os.Exit(code)
+}
